@@ -89,6 +89,9 @@ func e1Check(r *ev.Reporter, prop string, _ []string) {
 	if prop == "C06" {
 		c06Chains(r)
 	}
+	if prop == "C03" {
+		c03Local(r)
+	}
 	r.Extra["explorations"] = bounds
 	r.Traces = r.Transitions
 	r.Sample("chainedhotstuff n=4: init (leader 2 proposes view 1) | D ProposeMsg 1>0 | D ProposeMsg 1>2 | D VoteMsg 0>2 | T 3 | ...")
